@@ -476,6 +476,7 @@ def check_C10(F, tier, t0):
     guarded(R, 'X9', engine_x.rule_X9, F, R)
     guarded(R, 'X12', engine_x.rule_X12, F, R)
     guarded(R, 'X12 header', engine_x.rule_X12_header, F, R)
+    guarded(R, 'X12 outcome', engine_x.rule_X12_outcome, F, R)
     guarded(R, 'X4 header call', engine_x.rule_X4_header_call, F, R)
     guarded(R, 'X4 flags', engine_x.rule_X4_flags, F, R)
     # the header is free_vars: it is right only if the free-variable analysis is
